@@ -2,7 +2,7 @@
 CSRBank, tiny Wishbone master, scripted agents."""
 from collections import deque
 
-from migen import Module, Signal
+from migen import Module
 
 from litex.soc.interconnect import csr_bus
 
